@@ -264,6 +264,21 @@ gen_filter (gen_t *g, int slot, int allow_convolution)
     a[n++] = f; a[n++] = cw; a[n++] = ch; a[n++] = xb; a[n++] = yb;
     cnt = f == PIXMAN_FILTER_CONVOLUTION ? cw * ch : f == PIXMAN_FILTER_SEPARABLE_CONVOLUTION ? (1 << xb) * cw + (1 << yb) * ch : 0;
     for (i = 0; i < cnt; i++) a[n++] = rng_range (R, 0, 65536 / (f == PIXMAN_FILTER_CONVOLUTION ? cw * ch : (i < (1 << xb) * cw ? cw : ch)));
+    if (cnt && rng_chance (R, 1, 3))
+    {
+	/* one dominant tap per phase (weights close to 1): products of two such weights
+	 * are where 32-bit intermediate arithmetic would overflow */
+	int per = f == PIXMAN_FILTER_CONVOLUTION ? cw * ch : 0, q;
+	if (per) { for (q = 0; q < cnt; q++) a[n - cnt + q] = 0; a[n - cnt + rng_n (R, cnt)] = 65536 - rng_range (R, 0, 3000); }
+	else
+	{
+	    int nx = (1 << xb) * cw, ny = (1 << yb) * ch, ph;
+	    for (q = 0; q < cnt; q++) a[n - cnt + q] = rng_range (R, 0, 2000);
+	    for (ph = 0; ph < (1 << xb); ph++) a[n - cnt + ph * cw + rng_n (R, cw)] = 65536 - rng_range (R, 0, 6000);
+	    for (ph = 0; ph < (1 << yb); ph++) a[n - cnt + nx + ph * ch + rng_n (R, ch)] = 65536 - rng_range (R, 0, 6000);
+	    (void)ny;
+	}
+    }
     sc_addv (g->sc, MOP_SET_FILTER, n, a);
 }
 
